@@ -23,7 +23,8 @@ RULE = ("objects of every exported class from the supported grammars: ports (5 o
         "standard ACLs (names with punctuation, numbered or not, indent ' ', '  ', '    ', tab, group_by) and the "
         "config-level acls()/addrgroups() x platform x version x switches. judged = objects taken through render -> "
         "re-parse -> render; distinct non-trivial = (class, platform, native?, spelling class, switches)"
-        " Round 4: rendered text assigned to the line setter of a live object of the same class (text and data as for a new object).")
+        " Round 4: rendered text assigned to the line setter of a live object of the same class (text and data as for a new object)."
+        " Round 5: lower-case nested group names.")
 ASSUMPTIONS = ["native = a spelling the platform's own configuration uses (IOS: any/host/A W/object-group; NX-OS: any/A/len/A W/"
                "addrgroup); prefix notation on IOS is an accepted foreign spelling (two-step convergence)",
                "data() is compared without uuid; IPv4Network values compare by value"]
